@@ -18,13 +18,17 @@ log = logging.getLogger(__name__)
 
 class CyclicReference(LeafNode):
     def __init__(self, obj):
-        super().__init__(IdentityHash(obj))
+        if not isinstance(obj, IdentityHash):
+            # copy() passes the already wrapped object
+            obj = IdentityHash(obj)
+        super().__init__(obj)
 
     def __hash__(self):
-        return id(self.object)
+        return hash(self.object)
 
     def __eq__(self, other):
-        return isinstance(other, CyclicReference) and other.object is self.object
+        # two references are equal if they refer to the same object (IdentityHash compares by identity of what it wraps)
+        return isinstance(other, CyclicReference) and other.object == self.object
 
 
 class Builder(ABC):
